@@ -62,7 +62,12 @@ func (n *syncNamer) id(sum []byte) int {
 	return n.ids[string(sum)]
 }
 
-func tableUsable(db objects.Store, sum []byte) bool {
+func tableUsable(db objects.Store, sum []byte) (ok bool) {
+	defer func() {
+		if e := recover(); e != nil {
+			ok = false // a damaged table object
+		}
+	}()
 	t, err := objects.GetTable(db, sum)
 	if err != nil {
 		return false
@@ -140,11 +145,31 @@ type syncInput struct {
 	DevRelation string  `json:"devRelation"` // "", equal, ahead, unrelated, rewound: second branch `dev` on the remote
 	MaxPack uint64     `json:"maxPackfileSize"`
 	DenyNonFF bool     `json:"denyNonFastForwards"`
+	// --- case kinds selected by the case index (see syncVariants); absent in the cases of the first generator
+	Variant string         `json:"variant,omitempty"`
+	Slot int               `json:"slot,omitempty"`     // the how-many-th case of its kind this is: kinds enumerate their small finite dimensions by it
+	SpecMap []syncSpecMap  `json:"specMap,omitempty"`  // fetch: every (remote ref, destination, '+') pair the refspecs of the command expand to
+	ConfigFF string        `json:"configFF,omitempty"` // merge.fastForward of the repository configuration ("" = not set)
+	MergeTarget int        `json:"mergeTarget,omitempty"` // merge: the commit named on the command line (0 = the tip of origin/main)
+	TargetName string      `json:"targetName,omitempty"`
+	Fault string           `json:"fault,omitempty"`    // the injected fault, in words
+	RemoteRemoved bool     `json:"remoteRemoved,omitempty"` // `wrgl remote remove origin` ran before the push to the second remote
+	SecondRemote bool      `json:"secondRemote,omitempty"`  // the push goes to a second remote (observed as "remote")
 	LocalBefore  *syncRepoState `json:"localBefore"`
 	RemoteBefore *syncRepoState `json:"remoteBefore"`
 }
 
+// syncSpecMap is one concrete ref mapping of a fetch: the remote ref (without refs/), the local
+// destination (without refs/) and whether the refspec that yields it carries '+'.
+type syncSpecMap struct {
+	Src   string `json:"src"`
+	Dst   string `json:"dst"`
+	Force bool   `json:"force"`
+}
+
 type syncResult struct {
+	Crashed    bool `json:"crashed,omitempty"`    // the command under test panicked (a crashed process: the command failed)
+	FaultFired bool `json:"faultFired,omitempty"` // the injected fault was reached
 	LocalAfter   *syncRepoState `json:"localAfter"`
 	RemoteAfter  *syncRepoState `json:"remoteAfter"`
 	Failed       bool           `json:"failed"`
@@ -505,67 +530,837 @@ func runSyncCase(seed int64, thorough bool) (*syncInput, Res) {
 				rd.Close()
 			}
 		}
-		var errObs error
-		in.LocalBefore, errObs = observeDir(n, dir)
-		if errObs != nil {
-			return Err("observe-local")
-		}
-		in.RemoteBefore = observeRepo(n, sdb, srs)
-		srv.UploadRoundTrips, srv.Packfiles = 0, 0
-		cwd, _ := os.Getwd()
-		os.Chdir(root) // merge writes CONFLICTS_*.csv into the working directory
 		if (in.Action == "fetch" || in.Action == "pull") && r.Intn(6) == 0 {
 			in.StreamResets = 1 + r.Intn(6)
 		}
-		setStreamResets(in.StreamResets)
-		out, err := cli(dir, args...)
-		setStreamResets(0)
-		result := &syncResult{Failed: err != nil, Output: out, RoundTrips: srv.UploadRoundTrips, Packfiles: srv.Packfiles}
-		if err != nil {
-			result.Output += " ERR: " + err.Error()
-		}
-		if len(result.Output) > 600 {
-			result.Output = result.Output[:600]
-		}
-		result.LocalAfter, errObs = observeDir(n, dir)
-		if errObs != nil {
-			os.Chdir(cwd)
-			return Err("observe-local2")
-		}
-		result.RemoteAfter = observeRepo(n, sdb, srs)
-		// immediately repeated
-		srv.UploadRoundTrips, srv.Packfiles = 0, 0
-		if in.Action == "fetch" || in.Action == "push" {
-			cli(dir, args...)
-			result.RepeatTransferred = srv.Packfiles
-			result.Local2, _ = observeDir(n, dir)
-			result.Remote2 = observeRepo(n, sdb, srs)
-		}
-		os.Chdir(cwd)
-		// the graph of both sides
-		rd2, _ := local.NewRepoDir(dir, "")
-		ldb, err := rd2.OpenObjectsStore()
-		if err == nil {
-			in.Graph = graphOf(n, sdb, ldb)
-			ldb.Close()
-		}
-		rd2.Close()
-		return Ok(result)
+		run := &syncRun{in: in, n: n, root: root, dir: dir, rdb: sdb, rrs: srs, srv: srv}
+		return run.do(args)
 	})
 	return in, res
+}
+
+// syncRun is the observed part of a case: both sides before, the command under test, both sides
+// after, the immediate repeat (fetch / push) and the commit graph of every store involved.
+type syncRun struct {
+	in        *syncInput
+	n         *syncNamer
+	root, dir string
+	rdb       objects.Store // the remote that is observed (the receiver of a push)
+	rrs       ref.Store
+	srv       *RefServer
+	moreDBs   []objects.Store // further stores whose commits belong to the graph
+	// a panic of the command under test is recorded as a crashed process (the command failed) and
+	// the state it leaves is judged like that of any failed command
+	tolerateCrash bool
+	arm, disarm   func() // fault switch around the first run
+	fired         func() bool
+}
+
+func (s *syncRun) exec(args []string) (out string, err error, crashed bool) {
+	if !s.tolerateCrash {
+		out, err = cli(s.dir, args...)
+		return out, err, false
+	}
+	defer func() {
+		if e := recover(); e != nil {
+			out, err, crashed = out+" PANIC: "+fmt.Sprint(e), fmt.Errorf("crashed"), true
+		}
+	}()
+	out, err = cli(s.dir, args...)
+	return out, err, false
+}
+
+func (s *syncRun) do(args []string) Res {
+	in, n := s.in, s.n
+	var errObs error
+	in.LocalBefore, errObs = observeDir(n, s.dir)
+	if errObs != nil {
+		return Err("observe-local")
+	}
+	in.RemoteBefore = observeRepo(n, s.rdb, s.rrs)
+	s.srv.UploadRoundTrips, s.srv.Packfiles = 0, 0
+	cwd, _ := os.Getwd()
+	os.Chdir(s.root) // merge writes CONFLICTS_*.csv into the working directory
+	defer os.Chdir(cwd)
+	setStreamResets(in.StreamResets)
+	if s.arm != nil {
+		s.arm()
+	}
+	out, err, crashed := s.exec(args)
+	if s.disarm != nil {
+		s.disarm()
+	}
+	setStreamResets(0)
+	result := &syncResult{Failed: err != nil, Output: out, RoundTrips: s.srv.UploadRoundTrips, Packfiles: s.srv.Packfiles, Crashed: crashed}
+	if s.fired != nil {
+		result.FaultFired = s.fired()
+	}
+	if err != nil {
+		result.Output += " ERR: " + err.Error()
+	}
+	if len(result.Output) > 600 {
+		result.Output = result.Output[:600]
+	}
+	result.LocalAfter, errObs = observeDir(n, s.dir)
+	if errObs != nil {
+		return Err("observe-local2")
+	}
+	result.RemoteAfter = observeRepo(n, s.rdb, s.rrs)
+	// immediately repeated
+	s.srv.UploadRoundTrips, s.srv.Packfiles = 0, 0
+	if in.Action == "fetch" || in.Action == "push" {
+		s.exec(args)
+		result.RepeatTransferred = s.srv.Packfiles
+		result.Local2, _ = observeDir(n, s.dir)
+		result.Remote2 = observeRepo(n, s.rdb, s.rrs)
+	}
+	// the graph of all sides
+	rd2, _ := local.NewRepoDir(s.dir, "")
+	ldb, err := rd2.OpenObjectsStore()
+	if err == nil {
+		in.Graph = graphOf(n, append(append([]objects.Store{s.rdb}, s.moreDBs...), ldb)...)
+		ldb.Close()
+	}
+	rd2.Close()
+	return Ok(result)
+}
+
+// ---- case kinds selected by the case index ------------------------------------------------------
+//
+// Every fourth case index runs, after the case of the first generator, one more case of a kind
+// that generator does not produce. The kind is a function of the property and the index only, and
+// each kind draws from its own random stream (seeded by the case seed), so the cases of the first
+// generator are exactly what they were.
+
+var syncVariants = map[string][]string{
+	// closure / tables / faults on the sending side / a second remote / merging fetched history
+	"C09": {"multi-depth", "sender-fault", "second-remote", "merge-shallow"},
+	// ref decisions: several refspecs over one remote ref, configured and explicit merge modes, merge targets
+	"C10": {"overlap-specs", "ff-config", "merge-shallow"},
+}
+
+var syncVariantGens = map[string]func(e *syncEnv) Res{}
+
+func init() {
+	syncVariantGens["multi-depth"] = genMultiDepth
+	syncVariantGens["sender-fault"] = genSenderFault
+	syncVariantGens["second-remote"] = genSecondRemote
+	syncVariantGens["merge-shallow"] = genMergeShallow
+	syncVariantGens["overlap-specs"] = genOverlapSpecs
+	syncVariantGens["ff-config"] = genFFConfig
+}
+
+// syncEnv is what every case kind starts from: a remote behind the reference server and an
+// initialised local repository with the remote configured as origin.
+type syncEnv struct {
+	r    *rand.Rand
+	in   *syncInput
+	n    *syncNamer
+	root string
+	dir  string
+	sdb  *MemStore
+	srs  ref.Store
+	srv  *RefServer
+	uniq int
+}
+
+// table gives a small table whose content is unlike that of every other table of the case.
+func (e *syncEnv) table(tag string) *TableSpec {
+	e.uniq++
+	n := []int{2, 5, 40, 260}[e.r.Intn(4)]
+	t := GenTable(e.r, 2, n, []int{0}, 0)
+	for _, row := range t.Rows {
+		row[1] = fmt.Sprintf("%s-%d", tag, e.uniq)
+	}
+	return t
+}
+
+// commit adds a commit with a fresh table to a branch of the remote.
+func (e *syncEnv) commit(branch, tag string) error {
+	t := e.table(tag)
+	return opCommit(t.CSV(0), t.PK, 1, branch)(e.sdb, e.srs)
+}
+
+// mergeCommit makes the branch's head a commit with two parents (the old head and other), re-using
+// the old head's table.
+func (e *syncEnv) mergeCommit(branch string, other []byte) error {
+	h, err := ref.GetHead(e.srs, branch)
+	if err != nil {
+		return err
+	}
+	hc, err := objects.GetCommit(e.sdb, h)
+	if err != nil {
+		return err
+	}
+	e.uniq++
+	com := &objects.Commit{Table: hc.Table, Message: fmt.Sprintf("merge %d", e.uniq), Time: commitClock(), AuthorEmail: "e", AuthorName: "a", Parents: [][]byte{h, other}}
+	buf := newBuf()
+	com.WriteTo(buf)
+	sum, err := objects.SaveCommit(e.sdb, buf.Bytes())
+	if err != nil {
+		return err
+	}
+	return ref.CommitHead(e.srs, branch, sum, com, nil)
+}
+
+// point sets a branch of the remote to an existing commit.
+func (e *syncEnv) point(branch string, sum []byte) error {
+	c, err := objects.GetCommit(e.sdb, sum)
+	if err != nil {
+		return err
+	}
+	return ref.CommitHead(e.srs, branch, sum, c, nil)
+}
+
+func (e *syncEnv) cli(args ...string) Res {
+	if out, err := cli(e.dir, args...); err != nil {
+		return Res{"res": "err", "kind": "setup:" + strings.Join(args, " ") + ":" + out + ":" + err.Error()}
+	}
+	return nil
+}
+
+// localCommit commits a fresh table to the local branch main through the command line.
+func (e *syncEnv) localCommit(tag string) Res {
+	t := e.table(tag)
+	fp := writeCSV(e.root, fmt.Sprintf("l%d.csv", e.uniq), t)
+	return e.cli("commit", "main", fp, "local change", "-p", t.PK[0], "-n", "1")
+}
+
+// ancestorOf walks k first-parent steps back from sum (stops at a root).
+func ancestorOf(db objects.Store, sum []byte, k int) []byte {
+	for ; k > 0; k-- {
+		c, err := objects.GetCommit(db, sum)
+		if err != nil || len(c.Parents) == 0 {
+			break
+		}
+		sum = c.Parents[0]
+	}
+	return sum
+}
+
+// moveRemoteMain changes the remote's main the way `relation` says (remote-ahead, unrelated,
+// rewound, equal); a rewind of a single-commit history becomes "equal".
+func (e *syncEnv) moveRemoteMain(relation string) (string, error) {
+	switch relation {
+	case "remote-ahead":
+		for i := 0; i < 1+e.r.Intn(3); i++ {
+			if err := e.commit("main", "remote"); err != nil {
+				return relation, err
+			}
+		}
+	case "unrelated":
+		e.srs.Delete("heads/main")
+		for i := 0; i < 1+e.r.Intn(2); i++ {
+			if err := e.commit("main", "other"); err != nil {
+				return relation, err
+			}
+		}
+	case "rewound":
+		h, _ := ref.GetHead(e.srs, "main")
+		p := ancestorOf(e.sdb, h, 1)
+		if bytes.Equal(p, h) {
+			return "equal", nil
+		}
+		if err := e.point("main", p); err != nil {
+			return relation, err
+		}
+	}
+	return relation, nil
+}
+
+func runSyncVariant(seed int64, variant string, slot int) (*syncInput, Res) {
+	in := &syncInput{Seed: seed, Variant: variant, Slot: slot}
+	gen, ok := syncVariantGens[variant]
+	if !ok {
+		return in, Err("unknown-variant")
+	}
+	// the kind's own stream
+	h := int64(0)
+	for _, c := range variant {
+		h = h*131 + int64(c)
+	}
+	r := rand.New(rand.NewSource(seed ^ (h << 20)))
+	root, err := os.MkdirTemp(privateTmp(), "sync-")
+	if err != nil {
+		return in, Err("tmpdir")
+	}
+	defer os.RemoveAll(root)
+	os.Setenv("XDG_CONFIG_HOME", filepath.Join(root, "xdg"))
+	os.Setenv("HOME", root)
+	res := Guard(func() Res {
+		e := &syncEnv{r: r, in: in, n: &syncNamer{ids: map[string]int{}}, root: root, sdb: NewMemStore()}
+		var closeS func()
+		e.srs, closeS = NewRefStore()
+		defer closeS()
+		in.MaxPack = []uint64{0, 1, 700, 5000}[r.Intn(4)]
+		in.DenyNonFF = r.Intn(2) == 0
+		commitClock = func() time.Time { return fixedTime }
+		e.dir = filepath.Join(root, "repo", ".wrgl")
+		os.MkdirAll(filepath.Join(root, "repo"), 0755)
+		rd, err := local.NewRepoDir(e.dir, "")
+		if err != nil {
+			return Err("repodir")
+		}
+		if err := rd.Init(); err != nil {
+			return Err("init")
+		}
+		rd.Close()
+		for _, a := range [][]string{{"config", "set", "user.email", "u@example.com"}, {"config", "set", "user.name", "U"}} {
+			if res := e.cli(a...); res != nil {
+				return res
+			}
+		}
+		return gen(e)
+	})
+	return in, res
+}
+
+// serve starts the reference server over the given object store (the remote's own, or a wrapper
+// of it) and registers it as origin.
+func (e *syncEnv) serve(db objects.Store) Res {
+	e.srv = NewRefServer(db, e.srs, e.in.MaxPack, e.in.DenyNonFF)
+	return e.cli("remote", "add", "origin", e.srv.URL())
+}
+
+func (e *syncEnv) run() *syncRun {
+	return &syncRun{in: e.in, n: e.n, root: e.root, dir: e.dir, rdb: e.sdb, rrs: e.srs, srv: e.srv}
+}
+
+// --- multi-depth: a depth-limited (or full) fetch of several branches that share history ---------
+//
+// The remote has a trunk (main) and one or two more branches forking from arbitrary trunk commits,
+// each with 0..4 commits of its own, possibly merged into one another; the local repository is new
+// or a full clone of an early trunk. `wrgl fetch --depth d` (d = 1..4, sometimes 0) of all heads:
+// whatever the order in which the remote walks the wanted heads, every commit nearer than d to ANY
+// updated ref must arrive with its table.
+func genMultiDepth(e *syncEnv) Res {
+	r, in := e.r, e.in
+	in.Action, in.Relation = "fetch", "multi-branch"
+	if res := e.serve(e.sdb); res != nil {
+		return res
+	}
+	defer e.srv.Close()
+	trunk := 3 + r.Intn(4)
+	cloneAt := 0
+	if r.Intn(3) == 0 {
+		cloneAt = 1
+	}
+	var trunkSums [][]byte
+	for i := 0; i < trunk; i++ {
+		if err := e.commit("main", "trunk"); err != nil {
+			return Err("server-commit")
+		}
+		h, _ := ref.GetHead(e.srs, "main")
+		trunkSums = append(trunkSums, h)
+		if i+1 == cloneAt {
+			if res := e.cli("pull", "main", "origin", "refs/heads/main:refs/remotes/origin/main", "--set-upstream"); res != nil {
+				return res
+			}
+		}
+	}
+	names := []string{"dev", "zeta", "alpha"}
+	r.Shuffle(len(names), func(i, j int) { names[i], names[j] = names[j], names[i] })
+	branches := names[:2+r.Intn(2)]
+	// distance from each head to the first commit it shares with the trunk
+	dist := []int{}
+	// most branches fork from one trunk commit that has new history below it
+	f0 := cloneAt + 1 + r.Intn(trunk-cloneAt-1)
+	for _, b := range branches {
+		f := f0
+		if r.Intn(3) == 0 {
+			f = r.Intn(trunk)
+		}
+		if err := e.point(b, trunkSums[f]); err != nil {
+			return Err("server-branch")
+		}
+		own := r.Intn(5)
+		for i := own; i > 0; i-- {
+			if err := e.commit(b, b); err != nil {
+				return Err("server-commit-branch")
+			}
+		}
+		dist = append(dist, own, trunk-1-f)
+	}
+	if r.Intn(3) == 0 {
+		// one branch merges another (or main), then may go on
+		all := append([]string{"main"}, branches...)
+		x := all[r.Intn(len(all))]
+		y := all[r.Intn(len(all))]
+		if x != y {
+			o, _ := ref.GetHead(e.srs, y)
+			if err := e.mergeCommit(x, o); err != nil {
+				return Err("server-merge")
+			}
+			if r.Intn(2) == 0 {
+				if err := e.commit(x, x); err != nil {
+					return Err("server-commit-after-merge")
+				}
+			}
+			if r.Intn(2) == 0 {
+				// ... and the other one merges back what the first had before
+				o2 := ancestorOf(e.sdb, func() []byte { h, _ := ref.GetHead(e.srs, x); return h }(), 1+r.Intn(2))
+				if err := e.mergeCommit(y, o2); err != nil {
+					return Err("server-merge2")
+				}
+			}
+		}
+	}
+	in.Depth = []int{1, 2, 3, 3, 4, 4, 0}[r.Intn(7)]
+	if r.Intn(4) != 0 {
+		// a depth that reaches one or two commits into the shared part from the nearest head, so that
+		// shared commits are within the depth of some heads and beyond it for others
+		sort.Ints(dist)
+		in.Depth = dist[0] + 2 + r.Intn(2)
+	}
+	in.RefspecForce = r.Intn(2) == 0
+	spec := "refs/heads/*:refs/remotes/origin/*"
+	if in.RefspecForce {
+		spec = "+" + spec
+	}
+	args := []string{"fetch", "origin", spec}
+	if in.Depth > 0 {
+		args = append(args, "--depth", itoa(in.Depth))
+	}
+	return e.run().do(args)
+}
+
+// --- sender-fault: one read of the sending side's store fails (or one of its tables is damaged) ----
+//
+// fetch: the remote's store fails once, on its k-th read of a table / block / commit during the
+// exchange. push: one table object of the local store is cut short. Either the command fails and
+// moves no ref, or it succeeds and then the closure clauses hold as ever: a sender must not go on
+// without an object it could not read.
+type readFaultStore struct {
+	objects.Store
+	prefix string
+	left   int // the left-th matching read fails; 0 = not armed
+	fired  bool
+}
+
+func (s *readFaultStore) Get(k []byte) ([]byte, error) {
+	if s.left > 0 && strings.HasPrefix(string(k), s.prefix) {
+		s.left--
+		if s.left == 0 {
+			s.fired = true
+			return nil, fmt.Errorf("input/output error")
+		}
+	}
+	return s.Store.Get(k)
+}
+
+func genSenderFault(e *syncEnv) Res {
+	r, in := e.r, e.in
+	fs := &readFaultStore{Store: e.sdb}
+	if res := e.serve(fs); res != nil {
+		return res
+	}
+	defer e.srv.Close()
+	common := 1 + r.Intn(2)
+	for i := 0; i < common; i++ {
+		if err := e.commit("main", "base"); err != nil {
+			return Err("server-commit")
+		}
+	}
+	kind := e.in.Slot % 4 // 0: fetch into a new repository, 1: push, 2: fetch into a clone, 3: fetch, fault on a block or commit
+	cloned := kind == 1 || kind == 2 || (kind == 3 && r.Intn(2) == 0)
+	if cloned {
+		if res := e.cli("pull", "main", "origin", "refs/heads/main:refs/remotes/origin/main", "--set-upstream"); res != nil {
+			return res
+		}
+	}
+	run := e.run()
+	if kind != 1 {
+		in.Action, in.Relation = "fetch", "remote-ahead"
+		for i := 0; i < 1+r.Intn(3); i++ {
+			if err := e.commit("main", "remote"); err != nil {
+				return Err("server-commit2")
+			}
+		}
+		if r.Intn(3) == 0 {
+			h, _ := ref.GetHead(e.srs, "main")
+			e.point("dev", ancestorOf(e.sdb, h, 1))
+			e.commit("dev", "dev")
+		}
+		prefix := "tbl/"
+		if kind == 3 {
+			prefix = []string{"blk/", "com/"}[r.Intn(2)]
+		}
+		k := 1 + r.Intn(3)
+		in.Fault = fmt.Sprintf("the remote's store fails its read number %d of a %s object", k, strings.TrimSuffix(prefix, "/"))
+		run.arm = func() { fs.prefix, fs.left, fs.fired = prefix, k, false }
+		run.disarm = func() { fs.left = 0 }
+		run.fired = func() bool { return fs.fired }
+		in.RefspecForce = true
+		return run.do([]string{"fetch", "origin", "+refs/heads/*:refs/remotes/origin/*"})
+	}
+	in.Action, in.Relation = "push", "local-ahead"
+	nLocal := 1 + r.Intn(3)
+	for i := 0; i < nLocal; i++ {
+		if res := e.localCommit("local"); res != nil {
+			return res
+		}
+	}
+	// cut one table object of the commits about to be pushed
+	rd, err := local.NewRepoDir(e.dir, "")
+	if err != nil {
+		return Err("repodir2")
+	}
+	ldb, err := rd.OpenObjectsStore()
+	if err != nil {
+		rd.Close()
+		return Err("open-local")
+	}
+	lrs := rd.OpenRefStore()
+	h, _ := ref.GetHead(lrs, "main")
+	victim := ancestorOf(ldb, h, r.Intn(nLocal))
+	if vc, err := objects.GetCommit(ldb, victim); err == nil {
+		key := append([]byte("tbl/"), vc.Table...)
+		if b, err := ldb.Get(key); err == nil && len(b) > 2 {
+			cut := len(b) / 2
+			if r.Intn(2) == 0 {
+				cut = len(b) - 1 - r.Intn(len(b)/2)
+			}
+			ldb.Set(key, b[:cut])
+			in.Fault = fmt.Sprintf("a table object of the local store is cut from %d to %d bytes", len(b), cut)
+		}
+	}
+	ldb.Close()
+	rd.Close()
+	args := []string{"push", "origin", "refs/heads/main:refs/heads/main", "--no-progress"}
+	in.Force = r.Intn(3) == 0
+	if in.Force {
+		args = append(args, "--force")
+	}
+	return run.do(args)
+}
+
+// --- second-remote: a clone (full or shallow) pushes its branch to another remote ------------------
+//
+// The local repository is a full or depth-1 clone of origin, may have a commit of its own, and may
+// have had origin removed (`wrgl remote remove origin` deletes the remote-tracking refs). It pushes
+// main to a second remote that is empty or holds a prefix of the history. A push that succeeds must
+// leave the second remote with every commit AND every table of the branch; a push of a history with
+// absent tables has to fail.
+func genSecondRemote(e *syncEnv) Res {
+	r, in := e.r, e.in
+	in.Action, in.Relation, in.SecondRemote = "push", "local-ahead", true
+	if res := e.serve(e.sdb); res != nil {
+		return res
+	}
+	defer e.srv.Close()
+	// (shallow clone, origin removed, second remote holds a prefix) enumerated by the slot
+	combo := [][3]bool{{true, true, false}, {true, false, false}, {false, true, false}, {true, true, true}, {false, false, false},
+		{true, true, false}, {true, false, true}, {false, true, true}, {false, false, true}}[e.in.Slot%9]
+	common := 1 + r.Intn(3)
+	if combo[0] && common < 2 {
+		common = 2
+	}
+	var tables []*TableSpec
+	for i := 0; i < common; i++ {
+		t := e.table("base")
+		tables = append(tables, t)
+		if err := opCommit(t.CSV(0), t.PK, 1, "main")(e.sdb, e.srs); err != nil {
+			return Err("server-commit")
+		}
+	}
+	pull := []string{"pull", "main", "origin", "refs/heads/main:refs/remotes/origin/main", "--set-upstream"}
+	if combo[0] {
+		in.ShallowClone = true
+		pull = append(pull, "--depth", itoa(1+r.Intn(common-1)))
+	}
+	if res := e.cli(pull...); res != nil {
+		return res
+	}
+	if r.Intn(3) == 0 {
+		if res := e.localCommit("local"); res != nil {
+			return res
+		}
+	}
+	if combo[1] {
+		if res := e.cli("remote", "remove", "origin"); res != nil {
+			return res
+		}
+		in.RemoteRemoved = true
+	}
+	// the second remote: empty, or holding the first commits of the same history
+	db2 := NewMemStore()
+	rs2, close2 := NewRefStore()
+	defer close2()
+	if combo[2] {
+		held := 1 + r.Intn(common)
+		for i := 0; i < held; i++ {
+			if err := opCommit(tables[i].CSV(0), tables[i].PK, 1, "main")(db2, rs2); err != nil {
+				return Err("server2-commit")
+			}
+		}
+	}
+	srv2 := NewRefServer(db2, rs2, in.MaxPack, in.DenyNonFF)
+	defer srv2.Close()
+	if res := e.cli("remote", "add", "backup", srv2.URL()); res != nil {
+		return res
+	}
+	args := []string{"push", "backup", "refs/heads/main:refs/heads/main", "--no-progress"}
+	in.Force = r.Intn(4) == 0
+	if in.Force {
+		args = append(args, "--force")
+	}
+	run := &syncRun{in: in, n: e.n, root: e.root, dir: e.dir, rdb: db2, rrs: rs2, srv: srv2, moreDBs: []objects.Store{e.sdb}, tolerateCrash: true}
+	return run.do(args)
+}
+
+// --- merge-shallow: merging a commit of a fetched history, named by position or by sum -------------
+//
+// A full clone; the remote goes 2..4 commits ahead; `wrgl fetch --depth 1|2` brings the tip(s) with
+// tables and the rest without. Then `wrgl merge main <commit>` where <commit> is origin/main~j or
+// the commit's sum, in every fast-forward mode (flag and / or configuration), sometimes with a local
+// commit that makes it a real merge. A branch head may only ever be moved to a commit whose table
+// is present; a merge that cannot do that must fail and leave the branch alone.
+func genMergeShallow(e *syncEnv) Res {
+	r, in := e.r, e.in
+	in.Action, in.Relation = "merge", "remote-ahead"
+	if res := e.serve(e.sdb); res != nil {
+		return res
+	}
+	defer e.srv.Close()
+	for i := 0; i < 1+r.Intn(2); i++ {
+		if err := e.commit("main", "base"); err != nil {
+			return Err("server-commit")
+		}
+	}
+	if res := e.cli("pull", "main", "origin", "refs/heads/main:refs/remotes/origin/main", "--set-upstream"); res != nil {
+		return res
+	}
+	ahead := 2 + r.Intn(3)
+	depth := 1 + e.in.Slot%2
+	if r.Intn(8) == 0 {
+		depth = 0
+	}
+	if ahead <= depth {
+		ahead = depth + 1
+	}
+	for i := 0; i < ahead; i++ {
+		if err := e.commit("main", "remote"); err != nil {
+			return Err("server-commit2")
+		}
+	}
+	fetch := []string{"fetch", "origin"}
+	if depth > 0 {
+		fetch = append(fetch, "--depth", itoa(depth))
+	}
+	if res := e.cli(fetch...); res != nil {
+		return res
+	}
+	if r.Intn(6) == 0 {
+		in.Relation = "diverged"
+		if res := e.localCommit("local"); res != nil {
+			return res
+		}
+	}
+	if r.Intn(3) == 0 {
+		in.ConfigFF = []string{"never", "only"}[r.Intn(2)]
+		if res := e.cli("config", "set", "merge.fastForward", in.ConfigFF); res != nil {
+			return res
+		}
+	}
+	in.FFMode = []string{"", "", "ff", "no-ff", "ff-only"}[r.Intn(5)]
+	// the commit to merge: the tip, the first commit beyond the fetched depth, or any
+	j := r.Intn(ahead)
+	switch (e.in.Slot / 2) % 3 {
+	case 0:
+		if depth > 0 && depth < ahead {
+			j = depth
+		}
+	case 1:
+		j = 0
+	}
+	tip, _ := ref.GetHead(e.srs, "main")
+	target := ancestorOf(e.sdb, tip, j)
+	in.MergeTarget = e.n.id(target)
+	in.TargetName = "origin/main"
+	if j > 0 {
+		in.TargetName = fmt.Sprintf("origin/main~%d", j)
+	}
+	if r.Intn(2) == 0 {
+		in.TargetName = hx(target)
+	}
+	args := []string{"merge", "main", in.TargetName, "--no-gui"}
+	if in.FFMode != "" {
+		args = append(args, "--"+in.FFMode)
+	}
+	return e.run().do(args)
+}
+
+// --- overlap-specs: several refspecs, each with its own '+', covering the same remote refs ---------
+//
+// Two or three refspecs (a glob into refs/remotes/origin/, an explicit one for main into a custom
+// namespace, a glob into refs/remotes/mirror/) in any order first create their destinations; the
+// remote's branches then move (forward, to an unrelated history, backwards) and the same refspecs
+// are fetched again, each with an independent '+'. Every destination is judged by the '+' of the
+// refspec that yields it and by nothing else.
+func genOverlapSpecs(e *syncEnv) Res {
+	r, in := e.r, e.in
+	in.Action = "fetch"
+	if res := e.serve(e.sdb); res != nil {
+		return res
+	}
+	defer e.srv.Close()
+	for i := 0; i < 1+r.Intn(3); i++ {
+		if err := e.commit("main", "base"); err != nil {
+			return Err("server-commit")
+		}
+	}
+	heads := []string{"main"}
+	if r.Intn(2) == 0 {
+		h, _ := ref.GetHead(e.srs, "main")
+		if err := e.point("dev", h); err != nil {
+			return Err("server-dev")
+		}
+		heads = append(heads, "dev")
+	}
+	type spec struct {
+		src, dst string // without refs/; a trailing * is a glob
+	}
+	pool := []spec{{"heads/*", "remotes/origin/*"}, {"heads/main", "backup/origin-main"}, {"heads/*", "remotes/mirror/*"}}
+	r.Shuffle(len(pool), func(i, j int) { pool[i], pool[j] = pool[j], pool[i] })
+	specs := pool
+	if (e.in.Slot/8)%3 == 2 {
+		specs = pool[:2]
+	}
+	setup := []string{"fetch", "origin"}
+	for _, s := range specs {
+		setup = append(setup, "+refs/"+s.src+":refs/"+s.dst)
+	}
+	if res := e.cli(setup...); res != nil {
+		return res
+	}
+	// the remote moves
+	rel, err := e.moveRemoteMain([]string{"unrelated", "unrelated", "unrelated", "rewound", "rewound", "remote-ahead", "remote-ahead", "equal"}[r.Intn(8)])
+	if err != nil {
+		return Err("server-move")
+	}
+	in.Relation = rel
+	if len(heads) == 2 {
+		in.DevRelation = []string{"equal", "ahead", "unrelated"}[r.Intn(3)]
+		switch in.DevRelation {
+		case "ahead":
+			e.commit("dev", "dev")
+		case "unrelated":
+			e.srs.Delete("heads/dev")
+			e.commit("dev", "devx")
+		}
+	}
+	args := []string{"fetch", "origin"}
+	for i, s := range specs {
+		force := (e.in.Slot>>uint(i))&1 == 1 // every pattern of '+' over the refspecs, in command-line order
+		a := "refs/" + s.src + ":refs/" + s.dst
+		if force {
+			a = "+" + a
+		}
+		args = append(args, a)
+		// what the refspec expands to (a literal name, or a prefix with *)
+		for _, h := range heads {
+			name := "heads/" + h
+			if strings.HasSuffix(s.src, "*") {
+				p := strings.TrimSuffix(s.src, "*")
+				if strings.HasPrefix(name, p) {
+					in.SpecMap = append(in.SpecMap, syncSpecMap{Src: name, Dst: strings.TrimSuffix(s.dst, "*") + strings.TrimPrefix(name, p), Force: force})
+				}
+			} else if s.src == name {
+				in.SpecMap = append(in.SpecMap, syncSpecMap{Src: name, Dst: s.dst, Force: force})
+			}
+		}
+	}
+	in.Force = r.Intn(8) == 0
+	if in.Force {
+		args = append(args, "--force")
+	}
+	return e.run().do(args)
+}
+
+// --- ff-config: merge.fastForward in the configuration x the flag on the command line -------------
+//
+// `wrgl merge` / `wrgl pull` with merge.fastForward unset / never / only and with no flag, --ff,
+// --no-ff or --ff-only, over remote-ahead / diverged / local-ahead / equal histories. The mode in
+// force is the flag when one is given, the configuration otherwise.
+func genFFConfig(e *syncEnv) Res {
+	r, in := e.r, e.in
+	if res := e.serve(e.sdb); res != nil {
+		return res
+	}
+	defer e.srv.Close()
+	for i := 0; i < 1+r.Intn(2); i++ {
+		if err := e.commit("main", "base"); err != nil {
+			return Err("server-commit")
+		}
+	}
+	if res := e.cli("pull", "main", "origin", "refs/heads/main:refs/remotes/origin/main", "--set-upstream"); res != nil {
+		return res
+	}
+	in.Action = []string{"merge", "pull"}[r.Intn(2)]
+	// configuration x flag enumerated by the slot (an explicit --ff, the flag that has to undo a
+	// configured mode, twice per round); the history shape changes every 15 slots
+	in.Relation = []string{"remote-ahead", "diverged", "local-ahead", "remote-ahead", "equal"}[(e.in.Slot/15)%5]
+	if in.Relation == "remote-ahead" || in.Relation == "diverged" {
+		for i := 0; i < 1+r.Intn(2); i++ {
+			if err := e.commit("main", "remote"); err != nil {
+				return Err("server-commit2")
+			}
+		}
+	}
+	if in.Relation == "local-ahead" || in.Relation == "diverged" {
+		if res := e.localCommit("local"); res != nil {
+			return res
+		}
+	}
+	in.ConfigFF = []string{"never", "only", ""}[e.in.Slot%3]
+	if in.ConfigFF != "" {
+		if res := e.cli("config", "set", "merge.fastForward", in.ConfigFF); res != nil {
+			return res
+		}
+	}
+	in.FFMode = []string{"ff", "", "no-ff", "ff-only", "ff"}[(e.in.Slot/3)%5]
+	var args []string
+	if in.Action == "merge" {
+		cli(e.dir, "fetch", "origin", "--force")
+		args = []string{"merge", "main", "origin/main", "--no-gui"}
+	} else {
+		args = []string{"pull", "main", "--no-gui"}
+	}
+	if in.FFMode != "" {
+		args = append(args, "--"+in.FFMode)
+	}
+	return e.run().do(args)
+}
+
+func emitSync(ctx *Ctx, in *syncInput, res Res, tags ...string) {
+	nt := in.Relation == "diverged" || in.Relation == "unrelated" || in.Relation == "remote-ahead" || in.Variant != ""
+	ts := append(tags, "action="+in.Action, "relation="+in.Relation)
+	if in.Variant != "" {
+		ts = append(ts, "variant="+in.Variant)
+	}
+	ctx.Emit("sync", in, res, nt, ts...)
 }
 
 func runSync(ctx *Ctx) {
 	seed := ctx.Seed*1000003 + int64(ctx.Idx)
 	in, res := runSyncCase(seed, ctx.Thorough())
-	nt := in.Relation == "diverged" || in.Relation == "unrelated" || in.Relation == "remote-ahead"
-	ctx.Emit("sync", in, res, nt, "action="+in.Action, "relation="+in.Relation)
+	emitSync(ctx, in, res)
+	if vs := syncVariants[ctx.Prop]; len(vs) > 0 && ctx.Idx%4 == 3 {
+		k := ctx.Idx / 4
+		in, res := runSyncVariant(seed, vs[k%len(vs)], k/len(vs))
+		emitSync(ctx, in, res)
+	}
 }
 
 func corpusSync(ctx *Ctx, op string, raw json.RawMessage) {
 	var in syncInput
 	if err := json.Unmarshal(raw, &in); err != nil {
 		panic(err)
+	}
+	if in.Variant != "" {
+		in2, res := runSyncVariant(in.Seed, in.Variant, in.Slot)
+		emitSync(ctx, in2, res, "corpus")
+		return
 	}
 	in2, res := runSyncCase(in.Seed, true)
 	ctx.Emit("sync", in2, res, true, "corpus", "action="+in2.Action, "relation="+in2.Relation)
